@@ -202,16 +202,51 @@ func TestHealthyNoDuplicates(t *testing.T) {
 					// classify the regime: a later-positioned instance waits position x peer_timeout between freezing
 					// its batch and consulting the log; if the group is flushed more often than that, position 0 can
 					// report a CHANGED state in between, and the stale batch then looks new against the newer entry
+					notDelivered, degenerate := false, false
 					if det, ok := v.Detail.(map[string]any); ok {
+						// (ii) was the covering entry (written by the other instance at the end of its delivery) handed to
+						// this instance's Merge before it consulted its log?
+						cur0, ok1 := det["current"].(map[string]any)
+						prev0, ok2 := det["previous"].(map[string]any)
+						if ok1 && ok2 && fmt.Sprint(cur0["instance"]) != fmt.Sprint(prev0["instance"]) {
+							delivered := false
+							for _, e := range res.Log.Snapshot() {
+								if e.Kind != "deliver" || e.Instance != fmt.Sprint(cur0["instance"]) || e.T.UnixNano() >= cur0["start_ns"].(int64) {
+									continue
+								}
+								for _, dl := range e.Data.([]simcluster.Delivery) {
+									if dl.Key == fmt.Sprint(cur0["key"]) && dl.TS.UnixNano() >= prev0["end_ns"].(int64) {
+										delivered = true
+									}
+								}
+							}
+							// the known finding only covers an instance that did wait its full cluster wait (position x
+							// peer_timeout after the later of its flush tick and the end of gossip settling) and still had
+							// not been handed the entry; an instance that consulted its log earlier is a plain violation
+							pos := 0
+							fmt.Sscanf(fmt.Sprint(cur0["instance"]), "am%d", &pos)
+							from := cur0["tick_ns"].(int64)
+							if ready := res.Start.Add(cs.Settle).UnixNano(); ready > from {
+								from = ready
+							}
+							waited := cur0["start_ns"].(int64)-from >= int64(time.Duration(pos)*cs.PeerTimeout)-int64(time.Millisecond)
+							notDelivered = !delivered && waited
+						}
 						if cur, ok := det["current"].(map[string]any); ok {
 							if ep := res.Epochs[0]; ep != nil {
 								if p, ok := ep.PathByRouteID[fmt.Sprint(cur["route"])]; ok {
 									if nd := ep.NodeByPath[p]; nd != nil && nd.GroupInterval <= time.Duration(size-1)*cs.PeerTimeout+cs.Delay+time.Second {
-										sig += "[group_interval not longer than the cluster wait of the last position]"
+										degenerate = true
 									}
 								}
 							}
 						}
+					}
+					switch {
+					case degenerate:
+						sig += "[group_interval not longer than the cluster wait of the last position]"
+					case notDelivered:
+						sig += "[covering entry not yet delivered when the later instance consulted its log]"
 					}
 				}
 				sub.Violation(sig, witness(res, cs, map[string]any{"checker": name, "witness": v.Detail}))
